@@ -107,12 +107,18 @@ func (p *Path) vpIntrinsic(caller *frame, fn *ssa.Function, name string, args []
 		}
 		return intConst(v)
 	case "vp_Calls":
+		// number of times the named function was entered on this path; -1 if the
+		// program has no such function (e.g. it was renamed: the caller must not
+		// turn that into a verdict)
 		want := p.strArg(args[0], "function name")
 		n := 0
 		for f, c := range p.calls {
-			if f.String() == want || strings.HasSuffix(f.String(), want) {
+			if f.String() == want {
 				n += c
 			}
+		}
+		if n == 0 && !p.in.hasFunction(want) {
+			return intConst(-1)
 		}
 		return intConst(int64(n))
 	case "vp_Catch":
